@@ -8,9 +8,10 @@
     c16_unnest_elem        entity(e)                      = [x | p ∈ parents, x ∈ items(t(p))]
     c16_unnest_parent_cond set_of([p, e], c(p))           = the same, restricted to parents with c
     c16_unnest_elem_cond   set_of([p, e], e ⋈ k)          = the same, restricted to elements with ⋈ k
+    c16_unnest_both_cond   set_of([p, e], and_(c(p), e ⋈ k)) = restricted to parents with c AND elements with ⋈ k
+    c16_unnest_elem_vs_parent  set_of([p, e], e ⋈ t₂(p)) = per parent, the elements that compare with ITS value of t₂
     c16_nonempty_singleton a non-iterable value counts as a single element (given `items v = [v]`)
-  Conjunctions of both kinds of condition and overlapping collections are covered by the
-  correspondence check.  (`or_` over a repeated element inside ONE collection suppresses the
+  Other combinations (disjunctions, overlapping collections) are covered by the correspondence check.  (`or_` over a repeated element inside ONE collection suppresses the
   duplicate: set equality only — measured, see DESIGN.)
 -/
 import EqlModel.Lemmas.Closed
@@ -144,6 +145,78 @@ theorem c16_unnest_elem_cond [Inhabited V] (p f : VarId) (t : Term V) (h : FlatW
   | cons e es ih =>
     rw [List.flatMap_cons, ih, List.filter_cons]
     rcases Bool.eq_false_or_eq_true (W.cmp op e k) with hc | hc
+    · simp [hc, args_pair_under_both W D p f t h o e]
+    · simp [hc]
+
+/-- The element condition under a bound parent: one true output per qualifying element. -/
+private theorem elem_cond_under_parent (p f : VarId) (t : Term V) (h : FlatWF p f t) (op : CmpOp) (k : V) (o : V) :
+    evalCond W D (.cmp op (.flatten f t) (.lit k)) [(p, o)] false =
+      ((inner W t o).filter fun e => W.cmp op e k).map fun e => ([(f, e), (p, o)], false) := by
+  have hrf : rightFirst ([(p, o)] : Bnd V) (.lit k) = false := by simp [rightFirst, Term.vars]
+  have hlit : ∀ β : Bnd V, evalTerm W D (.lit k) β = [(β, k)] := fun β => rfl
+  simp only [evalCond, hrf, Bool.false_eq_true, if_false, flat_under_parent W D p f t h o, hlit,
+    List.flatMap_map, List.flatMap_cons, List.flatMap_nil, List.append_nil, Bool.or_false]
+  induction inner W t o with
+  | nil => rfl
+  | cons e es ih =>
+    rw [List.flatMap_cons, ih, List.filter_cons]
+    rcases Bool.eq_false_or_eq_true (W.cmp op e k) with hc | hc
+    · simp [hc]
+    · simp [hc]
+
+/-- Conditions on the parent AND on the element: `set_of([p, e], and_(c(p), e ⋈ k))`. -/
+theorem c16_unnest_both_cond [Inhabited V] (p f : VarId) (t : Term V) (h : FlatWF p f t)
+    (c : Cond V) (hc : c.noFlat = true) (hs : Cond.single p c) (op : CmpOp) (k : V) :
+    rows W D ⟨[.var p, .flatten f t], some (.and c (.cmp op (.flatten f t) (.lit k)))⟩ =
+      ((D p).filter fun o => denote W (constAsg o) c).flatMap fun o =>
+        ((inner W t o).filter fun e => W.cmp op e k).map fun e => [o, e] := by
+  have hand : evalCond W D (.and c (.cmp op (.flatten f t) (.lit k))) [] false =
+      (evalCond W D c [] false).flatMap fun q => evalCond W D (.cmp op (.flatten f t) (.lit k)) q.1 false := by
+    rw [evalCond]; simp
+  simp only [rows, hand]
+  rw [cond_dist W D p c hc hs false, List.flatMap_assoc, List.flatMap_assoc]
+  induction D p with
+  | nil => rfl
+  | cons o os ih =>
+    rw [List.flatMap_cons, ih, List.filter_cons]
+    rcases Bool.eq_false_or_eq_true (denote W (constAsg o) c) with hd | hd
+    · simp only [singleOut, closedOut, hd, Bool.true_or, if_true, List.flatMap_cons, List.flatMap_nil,
+        List.append_nil, elem_cond_under_parent W D p f t h op k o, List.flatMap_map]
+      congr 1
+      induction (inner W t o).filter fun e => W.cmp op e k with
+      | nil => rfl
+      | cons e es ih2 =>
+        simp only [List.flatMap_cons, List.map_cons, ih2, args_pair_under_both W D p f t h o e,
+          List.map_nil, List.singleton_append]
+    · simp [singleOut, closedOut, hd]
+
+/-- The element compared with an expression over its OWN parent: `set_of([p, e], e ⋈ t₂(p))` keeps, for
+    each parent, the elements that compare with that parent's value. -/
+theorem c16_unnest_elem_vs_parent [Inhabited V] (p f : VarId) (t t2 : Term V) (h : FlatWF p f t)
+    (h2 : FlatWF p f t2) (op : CmpOp) :
+    rows W D ⟨[.var p, .flatten f t], some (.cmp op (.flatten f t) t2)⟩ =
+      (D p).flatMap fun o =>
+        ((inner W t o).filter fun e => W.cmp op e (termVal W (constAsg o) t2)).map fun e => [o, e] := by
+  have hrf : rightFirst ([] : Bnd V) t2 = false := by
+    simp only [rightFirst, List.any_eq_false]
+    intro v _; simp [bound, List.lookup]
+  -- the right operand with parent and element bound
+  have hr : ∀ o e, evalTerm W D t2 [(f, e), (p, o)] = [([(f, e), (p, o)], termVal W (constAsg o) t2)] := by
+    intro o e
+    refine term_closed_on W D t2 h2.noFlat [(f, e), (p, o)] (constAsg o) ?_
+    intro v hv
+    rw [h2.vars v hv, lk_under p f o e h.fresh]
+    rfl
+  simp only [rows, evalCond, hrf, Bool.false_eq_true, if_false, flat_unbound W D p f t h,
+    List.flatMap_assoc, List.flatMap_map, hr, List.flatMap_cons, List.flatMap_nil, List.append_nil,
+    Bool.or_false]
+  apply flatMap_fun_congr
+  intro o
+  induction inner W t o with
+  | nil => rfl
+  | cons e es ih =>
+    rw [List.flatMap_cons, ih, List.filter_cons]
+    rcases Bool.eq_false_or_eq_true (W.cmp op e (termVal W (constAsg o) t2)) with hc | hc
     · simp [hc, args_pair_under_both W D p f t h o e]
     · simp [hc]
 
